@@ -178,6 +178,7 @@ pub fn check(mut ctx: Ctx, replay: Option<J>) -> ! {
   let quick = ctx.quick();
   let x = Exprs::new();
   let mut stim: Vec<J> = vec![];
+  let mut n_tlc_pairs = 0usize;
   if let Some(r) = &replay {
     stim.push(r["case"]["stimulus"].clone());
   } else {
@@ -200,6 +201,16 @@ pub fn check(mut ctx: Ctx, replay: Option<J>) -> ! {
     let st = tlc.judge("SelfTest_DecimalExp", "SelfTest_DecimalExp.cfg", &cases[..take], 12, 1800, &[]);
     if !st.ok || !st.rejects.is_empty() {
       tool_error(&format!("SelfTest_DecimalExp failed: {} {:?}", st.error_text, st.rejects));
+    }
+    let text = std::fs::read_to_string(ctx.verif.join("spec/selftest/decpow_cases.ndjson")).unwrap_or_else(|e| tool_error(&format!("decpow_cases.ndjson: {}", e)));
+    let cases: Vec<J> = text.lines().filter_map(|l| serde_json::from_str(l).ok()).collect();
+    if cases.len() < 40 {
+      tool_error("too few power self-test cases");
+    }
+    let take = if quick { 12 } else { cases.len() };
+    let st = tlc.judge("SelfTest_DecimalExp", "SelfTest_DecimalExp.cfg", &cases[..take], 12, 1800, &[]);
+    if !st.ok || !st.rejects.is_empty() {
+      tool_error(&format!("SelfTest_DecimalExp (powers) failed: {} {:?}", st.error_text, st.rejects));
     }
     let gen = tlc.run(Run::new("Gen_C02", if quick { "Gen_C02.cfg" } else { "Gen_C02Deep.cfg" }).timeout(600));
     if !gen.ok {
@@ -246,6 +257,16 @@ pub fn check(mut ctx: Ctx, replay: Option<J>) -> ! {
         stim.push(json!({"op": "pow", "a": a, "b": b}));
       }
     }
+    // inexact powers, judged by the enclosure of e^(b ln a) (DecimalExp!AcceptPow)
+    let pairs = gen.tagged("POWPAIRS").pop().and_then(|p| p.as_array().cloned()).unwrap_or_else(|| tool_error("no power pairs"));
+    if pairs.len() < 50 {
+      tool_error("too few power pairs");
+    }
+    for p in &pairs {
+      stim.push(json!({"op": "pow", "a": p[0], "b": p[1]}));
+    }
+    ctx.cov("inexact_power_pairs_from_tlc", json!(pairs.len()));
+    n_tlc_pairs = pairs.len();
     for a in list("transfine") {
       for op in ["exp", "log"] {
         stim.push(json!({"op": op, "a": a}));
@@ -316,18 +337,52 @@ pub fn check(mut ctx: Ctx, replay: Option<J>) -> ! {
   }
   // exp and log are costly to judge (enclosures): spread them evenly so that the shards of the judge stay balanced
   if replay.is_none() {
-    let (slow, rest): (Vec<J>, Vec<J>) = stim.drain(..).partition(|s| s["op"] == "exp" || s["op"] == "log");
-    let every = (rest.len() / slow.len().max(1)).max(1);
-    let mut slow = slow.into_iter();
-    for (i, s) in rest.into_iter().enumerate() {
-      if i % every == 0 {
-        if let Some(x) = slow.next() {
-          stim.push(x);
+    // (a power needs the enclosure only for a base other than 0, 1, -1 and a non-zero exponent; in the quick tier
+    // every sixth of the crossed `trans` pairs of that kind is kept - the TLC-chosen power pairs are all kept)
+    let is_one = |n: &J| n["e"] == 0 && n["c"].as_array().map(|c| c.len() == 1 && c[0] == 1).unwrap_or(false);
+    let nonzero = |n: &J| n["c"].as_array().map(|c| !c.is_empty()).unwrap_or(false);
+    let costly_pow = |s: &J| s["op"] == "pow" && nonzero(&s["a"]) && !is_one(&s["a"]) && nonzero(&s["b"]);
+    let n_pairs = stim.iter().filter(|s| costly_pow(s)).count();
+    let first_pair = stim.iter().position(|s| costly_pow(s)).unwrap_or(0);
+    let mut seen = 0usize;
+    let crossed = n_pairs.saturating_sub(n_tlc_pairs);
+    if quick {
+      let mut k = 0usize;
+      stim = stim.drain(..).enumerate().filter(|(i, s)| {
+        if *i >= first_pair && costly_pow(s) && seen < crossed {
+          seen += 1;
+          k += 1;
+          k % 6 == 0
+        } else {
+          true
+        }
+      }).map(|(_, s)| s).collect();
+    }
+    ctx.cov("inexact_powers_judged_by_enclosure", json!(stim.iter().filter(|s| costly_pow(s)).count()));
+    // the judge cuts the records into 12 contiguous shards: deal the costly ones round-robin (powers first, they cost
+    // about five times an exp / log), then fill every shard up with the cheap ones
+    let (mut slow, rest): (Vec<J>, Vec<J>) = stim.drain(..).partition(|s| s["op"] == "exp" || s["op"] == "log" || costly_pow(s));
+    slow.sort_by_key(|s| if s["op"] == "pow" { 0 } else { 1 });
+    let shards = 12usize;
+    let n = slow.len() + rest.len();
+    let per = (n + shards - 1) / shards;
+    let mut buckets: Vec<Vec<J>> = (0..shards).map(|_| vec![]).collect();
+    for (k, s) in slow.into_iter().enumerate() {
+      buckets[k % shards].push(s);
+    }
+    let mut rest = rest.into_iter();
+    for b in buckets.iter_mut() {
+      while b.len() < per {
+        match rest.next() {
+          Some(s) => b.push(s),
+          None => break,
         }
       }
-      stim.push(s);
     }
-    stim.extend(slow);
+    for b in buckets {
+      stim.extend(b);
+    }
+    stim.extend(rest);
   }
   let recs: Vec<J> = stim.iter().map(|s| execute(&x, s)).collect();
   // anti-vacuity: a result off by one unit in the last place must be rejected
@@ -363,6 +418,6 @@ pub fn check(mut ctx: Ctx, replay: Option<J>) -> ! {
   ctx.sample(json!(recs.get(recs.len() / 2)));
   ctx.sample(json!(recs.get(7)));
   ctx.assume("hook H2 (decQuadToBCD) reports the raw coefficient/exponent of results; operands are constructed with decQuadFromString from at most 34 digits (exact)");
-  ctx.assume("exp, log and non-integer powers are checked for finiteness only (accuracy enclosure not modelled yet)");
+  ctx.assume("exp, log and inexact powers are judged by rigorous enclosures computed in TLA+ with natural-number arithmetic (DecimalExp.tla: 80 digits); results in the subnormal range or at the overflow edge are unspecified");
   ctx.finish()
 }
